@@ -32,7 +32,7 @@ PROPS = {
     "C08": {
         "level": "translation_validation",
         "streams": _stub_streams(400, 8000),
-        "rule": "descriptions: the C07 in-domain tables (9 base types x 12 wrappers x 6 positions, keyword field names, aliases incl. recursive ones through ?, [] and [string], alias of object) and random interfaces; per description 6 cases drawn from: reply (flags 0 / more with two replies and Continues / oneway / Upgrade stub), typed error reply, method not overridden, unknown method, undecodable parameters (absent, null, wrong JSON kind, int with fraction/exponent/out of int64 range, float out of range, string for bool ...), and a call as a non-Go peer would send it (other key order, other letter case, unknown members); values: int64 extremes, float extremes incl. max, smallest subnormal, -0, unicode / control / HTML characters in strings and map keys, nil and empty arrays and maps, absent and present optionals, nested structs, arbitrary JSON for object. Compared per case: the request frame, the arguments the implementation received (json.Marshal of the untagged Go values), the flags it saw, every reply frame, the values / typed error / standard error the client stub returned. non-trivial = a value of nesting depth at least 2",
+        "rule": "(history) short fixed histories whose state must not outlive an operation: a Send given up on an unbuffered pipe followed by calls (the peer sees only the later calls), a connection closed with received but unread replies followed by a new connection that calls and upgrades, an interface registered between two serving runs on one Service under the same context (a call answered InterfaceNotFound before reaches it afterwards), a plain call after a `more` call answered to its end (the handler sees the flags of the call it handles); descriptions: the C07 in-domain tables (9 base types x 12 wrappers x 6 positions, keyword field names, aliases incl. recursive ones through ?, [] and [string], alias of object) and random interfaces; per description 6 cases drawn from: reply (flags 0 / more with two replies and Continues / oneway / Upgrade stub), typed error reply, method not overridden, unknown method, undecodable parameters (absent, null, wrong JSON kind, int with fraction/exponent/out of int64 range, float out of range, string for bool ...), and a call as a non-Go peer would send it (other key order, other letter case, unknown members); values: int64 extremes, float extremes incl. max, smallest subnormal, -0, unicode / control / HTML characters in strings and map keys, nil and empty arrays and maps, absent and present optionals, nested structs, arbitrary JSON for object. Compared per case: the request frame, the arguments the implementation received (json.Marshal of the untagged Go values), the flags it saw, every reply frame, the values / typed error / standard error the client stub returned. non-trivial = a value of nesting depth at least 2",
         "trusted_base": STUB_TB,
         "assumptions": [
             "strings and map keys are valid UTF-8; a present optional whose content encodes as JSON null (nil array/map, object null) is indistinguishable from an absent one and is not generated",
